@@ -9,11 +9,12 @@ from . import c05
 EXPLANATION = """
 [ROUND-TRIP, sized symbolic fields] parse(build(values)) = values for version (relay on/off), ping, getheaders (0/1/2/252/253/254 hashes; every count 0..259 in the thorough tier),
 inv (all inventory types, counts across 253) and addr payloads, with hashes / addresses / services as arbitrary byte strings of their fixed widths.
-[TYPESTATE/DOM] recv_msg: each accumulate loop runs while len(acc) != target, requests exactly target - len(acc) bytes
-(no over-read, so consecutive messages cannot bleed into one another), raises when recv returns an empty chunk (peer closed:
-termination instead of a busy loop) and appends the chunk; targets are 24 and the declared payload length (4 bytes LE at
-16..20). [DOM+TERM] the success return is dominated by length, checksum (SHA256d(payload)[:4] against bytes 20..24) and
-magic comparisons on every path (also for an empty payload). [LAYOUT/TILE] msg_ser = magic(4) || command NUL-padded to 12 ||
+[SCENARIO] recv_msg against scripted peers: a stream magic(4) command(12) length(4 LE) checksum(4) payload(L) next-message(30) of
+arbitrary content, L in 0/5/70(/300), delivered whole or in fragments (bytewise, 3+21, 23+1, 24+1, 25, sevens, oversized) or
+cut off after 0/1/10/23/24/n-1 bytes, with matching or foreign magic and right or wrong checksum. Per scenario: returns
+(magic, command without NUL padding, payload); requests and consumes exactly the 24+L bytes of this message; an early close is
+an error, not a message and not an endless loop; foreign magic / wrong checksum refused (also for an empty payload); a verdict
+that depends on how the stream is fragmented leaves the scenario undecided, which is reported. [LAYOUT/TILE] msg_ser = magic(4) || command NUL-padded to 12 ||
 len(4 LE) || SHA256d(payload)[:4] || payload, refused for unknown commands / oversized payloads; the reader's slices agree.
 [LAYOUT/TILE/TABLE/TYPE] codecs: version (field offsets, widths, endianness; relay byte compared with integers; user agent
 through its CompactSize length), ping, getheaders (count per CompactSize class 0..252 / fd / fe / ff with offsets 5, 7, 9, 13;
